@@ -2,7 +2,7 @@
 From Coq Require Import String.
 From Coq Require Import ZArith List Bool.
 From LasV Require Import Lib.Base Lib.Layout Gen.GenHeaderLayout Gen.GenFormatBits Gen.GenDims Model.Las Model.LasSpec
-  Model.LasFast Proofs.HeaderLen Proofs.VlrProofs Proofs.HeaderProofs Proofs.WriterProofs Proofs.RoundTripProofs Proofs.CrashProofs Proofs.LasFastProofs.
+  Model.LasFast Proofs.HeaderLen Proofs.VlrProofs Proofs.HeaderProofs Proofs.WriterProofs Proofs.RoundTripProofs Proofs.AppendProofs Proofs.CrashProofs Proofs.CrashAppendProofs Proofs.LasFastProofs.
 Import ListNotations.
 Open Scope list_scope.
 Open Scope Z_scope.
@@ -55,6 +55,21 @@ Theorem C19_crash_safe : forall ap h vl fmt chunks evl hb0 eb h' hb1 k j,
   reads_prefix_or_fails (crash_image (write_trace (snd hb0) chunks eb (snd hb1)) k j) (concat chunks).
 Proof. exact crash_safe. Qed.
 Print Assumptions C19_crash_safe.
+
+(* the same for an APPEND session on an existing file (the file of A): the chunk writes start where the old points end (over the old
+   EVLRs), then the EVLRs, then the in-place header rewrite; every crash image is refused or read as a prefix of A ++ the appended points *)
+Theorem C19_crash_safe_append : forall ap, ap_ok ap -> (forall s o x, 0 <= ap s o x) ->
+  forall h vl fmt A evl Bs f0 f1 hA h1 eb k j,
+  wf_las ap h vl fmt A evl -> wf_las ap h vl fmt (A ++ concat Bs) evl ->
+  file_of ap h vl fmt A evl = Ok f0 -> final_hdr ap h vl fmt A evl = Ok hA ->
+  file_of ap h vl fmt (A ++ concat Bs) evl = Ok f1 -> final_hdr ap h vl fmt (A ++ concat Bs) evl = Ok h1 ->
+  enc_vlrs true evl = Ok eb ->
+  let off := aint hA "offset_to_point_data" in
+  reads_prefix_or_fails
+    (crash_from f0 (append_trace (off + len (concat A)) Bs eb (firstn (Z.to_nat off) f1)) k j)
+    (A ++ concat Bs).
+Proof. exact crash_safe_append. Qed.
+Print Assumptions C19_crash_safe_append.
 
 Theorem C19_executable_twin : forall src, read_file_f src = read_file src.
 Proof. exact read_file_f_eq. Qed.
